@@ -352,3 +352,135 @@ pub fn escape(q: char, s: &str) -> String {
     }
     o
 }
+
+// ---------------------------------------------------------------- reference expression parser (C31)
+/// The documented table read as an operator-precedence grammar, independent of /repo's parser:
+/// every `-` in operand position is a prefix operator of level 6 whatever its operand is and whatever
+/// encloses it; `not` is level 10; postfix forms bind tightest; binary operators are left associative.
+/// Input: the model's token words.  Output: same answers as `verif_parse_expr` (`ok` / `partial` / `err`).
+pub struct RefParser<'a> { toks: &'a [String], i: usize }
+
+fn ref_op(w: &str) -> Option<Op> { ALL_OPS.iter().copied().find(|o| o.name() == w) }
+
+impl<'a> RefParser<'a> {
+    pub fn new(toks: &'a [String]) -> Self { RefParser { toks, i: 0 } }
+    fn cur(&self) -> &str { self.toks.get(self.i).map(|s| s.as_str()).unwrap_or("<eof>") }
+    fn skip_nl(&mut self) { while self.cur() == "nl" { self.i += 1; } }
+    fn list(&mut self, close: &str) -> Result<Vec<E>, ()> {
+        let mut v = vec![];
+        loop {
+            self.skip_nl();
+            if self.cur() == close { self.i += 1; return Ok(v); }
+            self.skip_nl();
+            v.push(self.bp(0)?);
+            if self.cur() == "," || self.cur() == "nl" { self.i += 1; } else { break; }
+        }
+        if self.cur() == close { self.i += 1; Ok(v) } else { Err(()) }
+    }
+    fn term(&mut self) -> Result<E, ()> {
+        self.skip_nl();
+        let w = self.cur().to_string();
+        if let Some(x) = w.strip_prefix("id:") { self.i += 1; return Ok(E::Atom(Atom::Ident(x.into()))); }
+        if let Some(x) = w.strip_prefix("i:") {
+            let n: u128 = x.parse().map_err(|_| ())?;
+            if n > i64::MAX as u128 { return Err(()); }
+            self.i += 1;
+            return Ok(E::Atom(Atom::Int(n as u64)));
+        }
+        if let Some(x) = w.strip_prefix("f:") { self.i += 1; return Ok(E::Atom(Atom::Float(x.into()))); }
+        if let Some(x) = w.strip_prefix("s:") {
+            let bytes: Vec<u8> = (0..x.len() / 2).map(|k| u8::from_str_radix(&x[2 * k..2 * k + 2], 16).unwrap_or(b'?')).collect();
+            self.i += 1;
+            return Ok(E::Atom(Atom::Str(String::from_utf8_lossy(&bytes).into_owned())));
+        }
+        match w.as_str() {
+            "true" => { self.i += 1; Ok(E::Atom(Atom::Bool(true))) }
+            "false" => { self.i += 1; Ok(E::Atom(Atom::Bool(false))) }
+            "nil" => { self.i += 1; Ok(E::Atom(Atom::Nil)) }
+            "sub" => {
+                // only reached after a line break (`parse_expr_term` accepts a signed literal there)
+                self.i += 1;
+                let w2 = self.cur().to_string();
+                if let Some(x) = w2.strip_prefix("i:") {
+                    let n: u128 = x.parse().map_err(|_| ())?;
+                    if n > i64::MAX as u128 + 1 { return Err(()); }
+                    self.i += 1;
+                    if n == i64::MAX as u128 + 1 { return Ok(E::Neg(Box::new(E::Atom(Atom::Int(n as u64))))); }
+                    return Ok(E::Neg(Box::new(E::Atom(Atom::Int(n as u64)))));
+                }
+                if let Some(x) = w2.strip_prefix("f:") { self.i += 1; return Ok(E::Neg(Box::new(E::Atom(Atom::Float(x.into()))))); }
+                Err(())
+            }
+            "(" => {
+                self.i += 1;
+                let mut v = self.list(")")?;
+                match v.len() { 0 => Err(()), 1 => Ok(v.pop().unwrap()), _ => Ok(E::Tuple(v)) }
+            }
+            "[" => { self.i += 1; Ok(E::Array(self.list("]")?)) }
+            _ => Err(()),
+        }
+    }
+    pub fn bp(&mut self, bp: u32) -> Result<E, ()> {
+        let mut lhs = match self.cur() {
+            "sub" => {
+                self.i += 1;
+                // the smallest integer: no other spelling exists
+                let after = self.toks.get(self.i + 1).map(|s| s.as_str()).unwrap_or("<eof>");
+                let tighter = matches!(after, "(" | "." | "[" | "!" | "?") || ref_op(after).map(|o| o.doc_level() > LEVEL_NEG).unwrap_or(false);
+                if self.cur() == "i:9223372036854775808" && !tighter {
+                    self.i += 1;
+                    E::Neg(Box::new(E::Atom(Atom::Int(1u64 << 63))))
+                } else {
+                    E::Neg(Box::new(self.bp(LEVEL_NEG)?))
+                }
+            }
+            "not" => { self.i += 1; E::Not(Box::new(self.bp(LEVEL_NOT)?)) }
+            _ => self.term()?,
+        };
+        loop {
+            match self.cur() {
+                "(" => { self.i += 1; let a = self.list(")")?; lhs = E::Call(Box::new(lhs), a); }
+                "." => {
+                    self.i += 1;
+                    let w = self.cur().to_string();
+                    match w.strip_prefix("id:") { Some(n) => { self.i += 1; lhs = E::Member(Box::new(lhs), n.into()); } None => return Err(()) }
+                }
+                "[" => {
+                    self.i += 1;
+                    self.skip_nl();
+                    let ix = self.bp(0)?;
+                    self.skip_nl();
+                    if self.cur() != "]" { return Err(()); }
+                    self.i += 1;
+                    lhs = E::Index(Box::new(lhs), Box::new(ix));
+                }
+                "!" => { self.i += 1; lhs = E::Unwrap(Box::new(lhs)); }
+                "?" => { self.i += 1; lhs = E::Try(Box::new(lhs)); }
+                w => match ref_op(w) {
+                    Some(o) if o.doc_level() > bp => {
+                        self.i += 1;
+                        let rhs = self.bp(o.doc_level())?;
+                        lhs = E::Bin(o, Box::new(lhs), Box::new(rhs));
+                    }
+                    _ => return Ok(lhs),
+                },
+            }
+        }
+    }
+}
+
+/// `Ok((tree, consumed_all))` or `Err(())`; the one exception to "every `-` is a prefix operator" is
+/// the smallest integer, which has no other spelling: `-9223372036854775808` not followed by a
+/// tighter operator is the literal (the reference reports a range error otherwise, like any parser must).
+pub fn reference_parse(words: &[String]) -> String {
+    let mut p = RefParser { toks: words, i: 0 };
+    p.skip_nl();
+    match p.bp(0) {
+        Err(()) => "err".into(),
+        Ok(e) => {
+            let consumed = p.i;
+            p.skip_nl();
+            if p.i >= words.len() { format!("ok {}", e.sexpr()) } else { format!("partial {} {}", consumed, e.sexpr()) }
+        }
+    }
+}
